@@ -141,8 +141,11 @@ def rule_output_alphabet(ck, repo, R):
                 ck.ok(R, f'thiele:{src(a)}', 'alternation order of the ring tautomer fix')
             else:
                 raise AnalysisError(f'thiele: bond order source `{src(v)}` not recognised')
-    no = [x for x in ast.walk(th.node) if isinstance(x, ast.Assign) and src(x.targets[0]) == 'new_order']
-    ck.decide(len(no) == 1 and src(no[0].value) == '1 if order == 2 else 2', R, 'thiele:alternation', src(no[0].value) if no else None,
+    no = [x.value for x in ast.walk(th.node) if isinstance(x, ast.Assign) and src(x.targets[0]) == 'new_order']
+    if not no:  # the alternation written in place: (current, n, depth, 1 if order == 2 else 2)
+        no = [x for x in ast.walk(th.node) if isinstance(x, ast.IfExp) and 'order' in src(x.test)]
+    alt_ok = len(no) == 1 and src(no[0]) in ('1 if order == 2 else 2', '2 if order == 1 else 1', '2 if order != 2 else 1', '1 if order != 1 else 2', '3 - order')
+    ck.decide(alt_ok, R, 'thiele:alternation', src(no[0]) if no else None,
               'ring tautomer fix no longer alternates orders 1 and 2', file=th.file, line=th.lineno)
     kk = repo.func('chython.algorithms.aromatics.kekule:Kekule.kekule')
     ck.decide('bonds[n][m]._order = b' in src(kk.node) and 'for n, m, b in kekule' in src(kk.node), R, 'kekule:applies-form', None,
@@ -207,12 +210,9 @@ def rule_tautomer_donor_guard(ck, repo, R):
     if len(adds) != 1:
         raise AnalysisError(f'thiele: expected one donors.append site, found {len(adds)}')
     from .astutil import conjuncts
-    guards = []
-    child, p = adds[0], parents.get(adds[0])
-    while p is not None and not isinstance(p, ast.For):
-        if isinstance(p, ast.If) and child in p.body:
-            guards += [src(c) for c in conjuncts(p.test)]
-        child, p = p, parents.get(p)
+    from .astutil import reach_conditions, expand_locals, single_defs
+    counts_ = {k for k, v in single_defs(th.node).items() if isinstance(v, ast.Call) and src(v.func) == 'len' and src(v.args[0]).startswith('bonds[')}  # degree = len(bonds[n])
+    guards = [src(expand_locals(c, th.node, only=counts_)) for c in reach_conditions(adds[0], th.node, parents)]
     two_bonds = any(g in ('b == 2', 'len(bonds[n]) == 2') for g in guards)
     has_h = any('implicit_hydrogens' in g for g in guards)
     ck.decide(two_bonds or has_h, R, 'donor-has-hydrogen', guards,
@@ -222,7 +222,7 @@ def rule_tautomer_donor_guard(ck, repo, R):
         bdef = [n for n in ast.walk(th.node) if isinstance(n, ast.NamedExpr) and src(n.target) == 'b']
         ck.decide(len(bdef) == 1 and src(bdef[0].value) == 'len(bonds[n])', R, 'donor:b-is-bond-count', src(bdef[0].value) if bdef else None,
                   'the donor guard `b == 2` no longer tests the number of bonds of the atom', file=th.file, line=adds[0].lineno)
-    ck.decide('lr == 6' in guards and 'fix_tautomers' in guards, R, 'donor:six-ring', guards, f'donor guard is {guards}; expected a six-membered ring under fix_tautomers', file=th.file, line=adds[0].lineno)
+    ck.decide(('lr == 6' in guards or 'len(ring) == 6' in guards) and 'fix_tautomers' in guards, R, 'donor:six-ring', guards, f'donor guard is {guards}; expected a six-membered ring under fix_tautomers', file=th.file, line=adds[0].lineno)
     acc = [n for n in ast.walk(th.node) if isinstance(n, ast.Call) and src(n.func) == 'acceptors.update']
     ck.decide(len(acc) == 1 and '== N and (not a.charge)' in src(acc[0]) or len(acc) == 1 and '== N and not a.charge' in src(acc[0]), R, 'acceptor:neutral-N', src(acc[0])[:90] if acc else None,
               'acceptors are no longer restricted to neutral nitrogens', file=th.file, line=th.lineno)
@@ -550,3 +550,85 @@ def rule_simple_cycle_guard(ck, repo, R):
                   f'repeats that atom (its sibling emission sites keep the test)', file=m.relpath, line=site.lineno, func='_c_set', construct=src(site)[:120])
     ck.count(f'{R}: emission sites', n)
     ck.require(n >= 2, f'_c_set: {n} emission sites found, 2 confirmed by hand')
+
+
+def rule_ring_mark_is_bool(ck, repo, R):
+    """C08/C06: Bond.in_ring of a molecule bond is True or False (None means "unspecified" and exists on the query side only: QueryBond.__eq__ compares
+    `self.in_ring != other.in_ring`). The expression calc_labels assigns must therefore be boolean on every input: every operand of its `and` chain that can end the
+    chain is False-or-truthy-set, never None"""
+    ck.rule(R, 'calc_labels assigns bond._in_ring a value that is always a bool: in `a and b and c` every non-final operand is coerced with `or False` (or is a comparison), '
+               'the final operand is a comparison / negation; an operand like `d.get(k)` can be None and would be stored as the mark')
+    from .astutil import single_defs
+    f = repo.func('chython.containers.molecule:MoleculeContainer.calc_labels')
+    defs = single_defs(f.node)
+    n = 0
+
+    def boolish(e):
+        return isinstance(e, (ast.Compare,)) or (isinstance(e, ast.UnaryOp) and isinstance(e.op, ast.Not)) or (isinstance(e, ast.Constant) and isinstance(e.value, bool))
+
+    def never_none(e, depth=0):
+        if boolish(e):
+            return True
+        if isinstance(e, ast.NamedExpr):
+            return never_none(e.value, depth)
+        if isinstance(e, ast.BoolOp) and isinstance(e.op, ast.Or):
+            return isinstance(e.values[-1], ast.Constant) and e.values[-1].value is False
+        if isinstance(e, ast.Name) and depth < 3 and e.id in defs:
+            return never_none(defs[e.id], depth + 1)
+        if isinstance(e, ast.Name) and depth < 3:
+            # assigned in the loop (anr = atoms_rings.get(n) or False)
+            vals = [a.value for a in ast.walk(f.node) if isinstance(a, ast.Assign) and any(isinstance(t, ast.Name) and t.id == e.id for t in a.targets)]
+            return bool(vals) and all(never_none(v, depth + 1) for v in vals)
+        return False
+    for a in ast.walk(f.node):
+        if isinstance(a, ast.Assign) and src(a.targets[0]) == 'bond._in_ring':
+            n += 1
+            v = a.value
+            if isinstance(v, ast.BoolOp) and isinstance(v.op, ast.And):
+                bad = [src(x) for x in v.values[:-1] if not never_none(x)] + ([src(v.values[-1])] if not boolish(v.values[-1]) else [])
+            else:
+                bad = [] if boolish(v) or (isinstance(v, ast.Call) and src(v.func) == 'bool') else [src(v)]
+            ck.decide(not bad, R, f'in_ring-bool@{n}', None,
+                      f'calc_labels stores `{src(v)[:100]}` as bond._in_ring: the operand(s) {bad} can be None, and None is then the ring mark of the bond; QueryBond.__eq__ '
+                      f'compares marks with != and treats None as "not equal to False": `!@` no longer matches such bonds', file=f.file, line=a.lineno, func=f.qualname, construct=src(a)[:120])
+    ck.require(n >= 1, 'calc_labels: assignment of bond._in_ring not found')
+
+
+def rule_pid_replace_or_extend(ck, repo, R):
+    """C06: _make_pid keeps, per atom pair, the shortest paths (pid1) and the paths one longer (pid2) relative to the CURRENT shortest distance. In an arm that lowers
+    that distance both tables refer to a new reference length and must be replaced; in an arm that keeps it they may only be extended. Mixing the two leaves paths of a
+    third length in a table that _c_set trusts to hold exactly "shortest + 1" paths"""
+    from .astutil import if_chain
+    ck.rule(R, 'rings._make_pid: in every arm of the distance ladder that records a new (smaller) distance, pid1[i][j] and pid2[i][j] are assigned (replaced); in every arm that '
+               'keeps the distance they are only extended with .update(); never the other way round')
+    m = repo.module('chython.algorithms.rings')
+    f = m.functions.get('_make_pid')
+    ck.require(f is not None, 'rings._make_pid vanished')
+    ladders = [n for n in ast.walk(f.node) if isinstance(n, ast.If) and len(if_chain(n)) >= 4 and 'ikj' in src(n.test)]
+    ck.require(len(ladders) >= 1, '_make_pid: distance ladder not found')
+    lad = ladders[0]
+    n = 0
+    for test, blk in if_chain(lad):
+        nd = [src(a.value) for s_ in blk for a in ast.walk(s_) if isinstance(a, ast.Assign) and src(a.targets[0]).endswith('[j]') and src(a.targets[0]).startswith('nd')]
+        if len(nd) != 1:
+            raise AnalysisError(f'_make_pid: arm `{src(test) if test is not None else "else"}` does not record exactly one distance')
+        lowers = nd[0] != 'ij'
+        writes = []
+        for s_ in blk:
+            for a in ast.walk(s_):
+                if isinstance(a, ast.Assign) and re_pid(src(a.targets[0])):
+                    writes.append((src(a.targets[0]), 'replace'))
+                elif isinstance(a, ast.Call) and isinstance(a.func, ast.Attribute) and a.func.attr == 'update' and re_pid(src(a.func.value)):
+                    writes.append((src(a.func.value), 'extend'))
+        for tgt, how in writes:
+            n += 1
+            ck.decide((how == 'replace') == lowers, R, f'{src(test) if test is not None else "else"}:{tgt}', how,
+                      f'_make_pid: in the arm `{src(test) if test is not None else "else"}` (distance {"lowered to " + nd[0] if lowers else "kept"}) `{tgt}` is {"replaced" if how == "replace" else "extended"}: '
+                      + ('paths collected for the old, longer distance stay in a table that is read as "shortest + 1"' if lowers else 'paths of the current distance are thrown away'),
+                      file=m.relpath, line=lad.lineno, func='_make_pid', construct=tgt)
+    ck.require(n >= 6, f'_make_pid: {n} table writes found in the ladder, 6 confirmed by hand')
+
+
+def re_pid(t):
+    import re as _re
+    return _re.fullmatch(r'pid[12]\[i\]\[j\]', t) is not None
